@@ -46,7 +46,8 @@ Inductive map_op : Type :=
 | OpSetGet (k : Z)                       (* get(&v) -> Option<&T> (stamp of the stored key) *)
 | OpSetGetOrInsert (k stamp : Z)         (* get_or_insert(v) -> &T *)
 | OpSetGetOrInsertWith (k stamp fk : Z)  (* get_or_insert_with(&k, |_| key fk with this stamp) *)
-| OpSetRemove (k : Z).                   (* remove(&v) -> bool *)
+| OpSetRemove (k : Z)                    (* remove(&v) -> bool *)
+| OpSetToggle (k stamp : Z).             (* one step of `^=`: remove if present, else insert a clone *)
 
 Inductive out : Type :=
 | OutUnit
@@ -253,9 +254,14 @@ Section Map.
           (fun t1 h slot evs =>
              if Z.eqb fk k then t2 <- insert_in_slot B kv t1 h slot (mkKV fk stamp 0%Z) ;; Ok (t2, OutKV stamp 0%Z, evs)
              else Ok (t1, OutLibPanic, evs))        (* assert!(value.equivalent(&new)) *)
-    | OpSetRemove k =>
+    | OpSetToggle k stamp =>
+        m_find_or_slot t k
+          (fun t1 i e evs => '(e', t2) <- R_remove t1 i ;; Ok (t2, OutBool false, evs ++ (if needs_drop then [EvDrop e'] else [])))
+          (fun t1 h slot evs => t2 <- insert_in_slot B kv t1 h slot (mkKV k stamp 0%Z) ;; Ok (t2, OutBool true, evs))
+    | OpSetRemove k =>                 (* self.map.remove(value).is_some(): the element is dropped inside *)
         '(t1, o, evs) <- m_remove_entry t k (fun e => OutBool true) ;;
-        Ok (t1, match o with OutNone => OutBool false | x => x end, evs)
+        Ok (t1, match o with OutNone => OutBool false | x => x end,
+            flat_map (fun e => match e with EvMoveOut x => if needs_drop then [EvDrop x] else [] | y => [y] end) evs)
     | OpWithCapacity n =>
         '(evs0, _) <- drop_inner_table B kv tsize talign needs_drop drop_ok t ;;
         r <- fallible_with_capacity B kv tsize talign n alloc_refuses Infallible ;;
